@@ -10,7 +10,13 @@
    transformed draws, proposal x acceptance proportional to the target and acceptance <= 1 for the rejection samplers
    (C05_mhn_...), shapes (C05_wrapper_...), RNG isolation (C05_rng_...).  NOT proved: the laws of numpy's generators
    themselves (oracles) and the measure-theoretic step from these identities to "the law of the draws is pi";
-   the MHN negative-gamma scheme's acceptance bound (Theorem 4 of Sun et al.) is not proved either. *)
+   the MHN negative-gamma scheme's acceptance bound (Theorem 4 of Sun et al.) is proved in Props/C05_R.v (C05_mhn_negative_gamma).
+   Third deepening round: Props/C05_push.v -- the change of variables in its differential form (`pushes`: bijection of the
+   supports, monotone, differentiable inverse, base (ginv x) |ginv' x| = documented pdf x) for the transformation of the base
+   variate that produces the draws of Normal, Uniform, Gamma (scale = 1/rate), Laplace, Cauchy, Lognormal, InverseGamma, Beta
+   (2-d, _partial) and the MHN sqrt-Gamma proposal, and for chains of such transformations; Props/C05_mc.v -- the exact law of
+   the eps-regularised neumann / periodic GMRF draws direction by direction and its explicit distance to the documented one;
+   Props/C05_layout.v -- the repaired ModifiedHalfNormal._sample (one row per component, one column per draw). *)
 From CV Require Import Base.Tac Base.Cmp Model.C05_Sample Proofs.C05_Sample.
 From Coq Require Import QArith.
 From Coq Require String.
@@ -122,9 +128,12 @@ Theorem C05_gaussian_tiny_scale_refuted :
 Proof. exact gauss_tiny_scale_refuted. Qed.
 Print Assumptions C05_gaussian_tiny_scale_refuted.
 
-(* REFUTED class (finding GMRF._sample|periodic:dft-eigenvalue-pairing): the configuration GMRF(zeros(4),1,'periodic')
-   as built by the code passes the model of the DFT sampler, and the covariance of its draws is not a generalised
-   inverse of the precision P = D^T D of its own density *)
+(* REFUTED class (finding GMRF._sample|periodic:dft-eigenvalue-pairing, `fixed` by /repo commit e7f8cb4): the configuration
+   GMRF(zeros(4),1,'periodic') as built by the code BEFORE the repair passes the model of the DFT sampler, and the covariance of
+   its draws is not a generalised inverse of the precision P = D^T D of its own density.  The repaired code draws periodic
+   fields by the neumann construction; that path is the one the correspondence evaluates now (check_gmrf_neumann with the
+   model-computed periodic stencil, check_eps_law) and C05_gmrf_neumann_cov_eps / C05_gmrf_eps_law (Props/C05_mc.v) apply to it;
+   the DFT model is evaluated only on a tree where the repair is reverted. *)
 Theorem C05_gmrf_periodic_cov_refuted :
   exists n mean prec r P D Fre Fim ev w off T,
     gmrf_periodic_ok n mean prec r P D Fre Fim ev w off T = true /\
